@@ -36,10 +36,66 @@ Section SortBy.
   Qed.
 End SortBy.
 
+(* ------------------------------------------------------------------------------------------------ the final phase, named *)
+(* the continuation of `run` in grid_main (Model/GridAlg.v), copied *)
+Section GridFinalDef.
+  Notation T := XQ.
+  Notation Alg := (Engine.Alg (GIn T) (LayoutOutput T) (GLay T)).
+  Notation Ret := (Engine.Ret (GIn T) (LayoutOutput T) (GLay T)).
+  Definition grid_final (st : GStyle T) (P : @Pre T) (col_counts row_counts : PB.TrackCounts) (oof : list (@OofChild T)) : @Sized T * bool -> Alg :=
+                (fun '(z, continue) =>
+                   if negb continue then Ret (from_outer_size (z_border_box z))
+                   else
+                     let s := z_state z in
+                     let jc := opt_unwrap_or (gs_justify_content st) AStretch in
+                     let ac := opt_unwrap_or (gs_align_content st) AStretch in
+                     let cols := align_tracks (width (z_content_box z)) (r_left (p_padding P)) (r_left (p_border P)) (ss_cols s) jc in
+                     let rows := align_tracks (height (z_content_box z)) (r_top (p_padding P)) (r_top (p_border P)) (ss_rows s) ac in
+                     let items := sort_by (fun a b => Nat.ltb (g_node a) (g_node b)) (ss_items s) in
+                     let cas := to_ae_ib st in
+                     inflow_pass cas cols rows items 0 size_ZERO []
+                       (fun content placed =>
+                          out_of_flow_pass P cas col_counts row_counts (z_border_box z) cols rows oof 0 (length items) content
+                            (fun content' =>
+                               match container_baseline placed with
+                               | None => Ret (from_outer_size (z_border_box z))
+                               | Some b => Ret (mkOutput (z_border_box z) content' (mkPoint None (Some b))
+                                                         margin_set_ZERO margin_set_ZERO false)
+                               end))).
+
+  (* container_baseline with its local `take` named *)
+  Definition take_row (first_row : nat) : list (@Placed T) -> list (@Placed T) :=
+    fix take (l : list Placed) : list Placed :=
+      match l with
+      | [] => []
+      | p :: r => if Nat.eqb (fst (height (g_ix (fst (fst p))))) first_row then p :: take r else []
+      end.
+  Lemma container_baseline_eq (placed : list (@Placed T)) :
+    container_baseline placed =
+    let sorted := sort_by (fun a b : Placed => Nat.ltb (fst (height (g_ix (fst (fst a))))) (fst (height (g_ix (fst (fst b)))))) placed in
+    match sorted with
+    | [] => None
+    | p0 :: _ =>
+        let '(g, y, h) := match find (fun p : Placed => ai_is_baseline (g_align (fst (fst p))))
+                                     (take_row (fst (height (g_ix (fst (fst p0))))) sorted) with
+                          | Some p => p
+                          | None => p0
+                          end in
+        Some (y + opt_unwrap_or (g_baseline g) h)%num
+    end.
+  Proof. reflexivity. Qed.
+End GridFinalDef.
+
+Lemma rel_find {X} (R : X -> X -> Prop) (p p' : X -> bool) l l' : (forall x x', R x x' -> p' x' = p x) -> Forall2 R l l' ->
+  op_rel R (find p l) (find p' l').
+Proof.
+  intros Hp Hl. induction Hl as [|x x' r r' Hx Hr IH]; cbn [find]; [exact I|]. rewrite (Hp _ _ Hx). destruct (p x); [exact Hx|exact IH].
+Qed.
+
 Ltac gw_open H :=
   let H' := fresh in
   pose proof H as H'; unfold gstyle_wrel in H';
-  destruct H' as (?Wdisp & ?Wpos & ?Wov & ?Wsw & ?War & ?Wmg & ?Wtc & ?Wtr & ?Wac & ?Wau & ?Wflow & ?Wgap & ?Wai & ?Wji & ?Wac & ?Wjc &
+  destruct H' as (?Wdisp & ?Wpos & ?Wov & ?Wsw & ?War & ?Wmg & ?Wtc & ?Wtr & ?Wacol & ?Warow & ?Wflow & ?Wgap & ?Wai & ?Wji & ?Walc & ?Wjc &
                   ?Wrow & ?Wcol & ?Was & ?Wjs & ?Wrep & ?Wpre & ?Wdims & ?Wres & ?Wcaps & ?Wabs).
 
 Section Final.
@@ -207,4 +263,61 @@ Section Final.
     AR (out_of_flow_pass P cas cc rc bb cols rows children index order content K)
        (out_of_flow_pass P' cas cc rc bb' cols' rows' children' index order content' K').
   Proof. intros. apply rel_out_of_flow_pass_gen; assumption. Qed.
+
+  (* ---- 9. the container baseline *)
+  Lemma rel_take_row n l l' : Forall2 (placed_rel k) l l' -> Forall2 (placed_rel k) (take_row n l) (take_row n l').
+  Proof.
+    induction 1 as [|x x' r r' Hx Hr IH]; cbn [take_row]; [constructor|]. pose proof Hx as ((_ & _ & _ & _ & _ & Eix & _) & _). rewrite Eix.
+    destruct (Nat.eqb _ n); constructor; assumption.
+  Qed.
+  Lemma rel_container_baseline p p' : Forall2 (placed_rel k) p p' -> O (container_baseline p) (container_baseline p').
+  Proof.
+    intros Hp. rewrite !container_baseline_eq.
+    assert (Hs : Forall2 (placed_rel k)
+                   (sort_by (fun a b : @Placed XQ => Nat.ltb (fst (height (g_ix (fst (fst a))))) (fst (height (g_ix (fst (fst b)))))) p)
+                   (sort_by (fun a b : @Placed XQ => Nat.ltb (fst (height (g_ix (fst (fst a))))) (fst (height (g_ix (fst (fst b)))))) p')).
+    { apply (rel_sort_by (placed_rel k)); [|exact Hp]. intros a a' b b' ((_ & _ & _ & _ & _ & Ea & _) & _) ((_ & _ & _ & _ & _ & Eb & _) & _).
+      rewrite Ea, Eb. reflexivity. }
+    cbv zeta. set (s := sort_by _ p) in *. set (s' := sort_by _ p') in *. clearbody s s'.
+    destruct Hs as [|p0 p0' r r' H0 Hr]; [exact I|].
+    pose proof H0 as ((_ & _ & _ & _ & _ & E0 & _) & _). rewrite E0.
+    assert (Hf : op_rel (placed_rel k)
+                   (find (fun q : @Placed XQ => ai_is_baseline (g_align (fst (fst q)))) (take_row (fst (height (g_ix (fst (fst p0))))) (p0 :: r)))
+                   (find (fun q : @Placed XQ => ai_is_baseline (g_align (fst (fst q)))) (take_row (fst (height (g_ix (fst (fst p0))))) (p0' :: r')))).
+    { apply rel_find; [|apply rel_take_row; constructor; assumption]. intros x x' ((_ & _ & _ & Eal & _) & _). rewrite Eal. reflexivity. }
+    assert (Hpick : placed_rel k
+              (match find (fun q : @Placed XQ => ai_is_baseline (g_align (fst (fst q)))) (take_row (fst (height (g_ix (fst (fst p0))))) (p0 :: r)) with
+               | Some q => q | None => p0 end)
+              (match find (fun q : @Placed XQ => ai_is_baseline (g_align (fst (fst q)))) (take_row (fst (height (g_ix (fst (fst p0))))) (p0' :: r')) with
+               | Some q => q | None => p0' end)).
+    { destruct (find _ (take_row _ (p0 :: r))), (find _ (take_row _ (p0' :: r'))); cbn [op_rel] in Hf; try contradiction; assumption. }
+    destruct (match find _ (take_row _ (p0 :: r)) with Some q => q | None => p0 end) as [[g y] h].
+    destruct (match find _ (take_row _ (p0' :: r')) with Some q => q | None => p0' end) as [[g' y'] h'].
+    destruct Hpick as (Hg & Hy & Hh). cbn [fst snd] in Hg, Hy, Hh. destruct Hg as (_ & _ & _ & _ & _ & _ & _ & _ & Hb & _).
+    cbn [op_rel]. apply sc_add; [exact Hy|]. destruct (g_baseline g), (g_baseline g'); cbn [op_rel] in Hb; try contradiction; cbn [opt_unwrap_or]; assumption.
+  Qed.
+
+  (* ---- 10. the whole final phase *)
+  Theorem grid_final_rel st st' P P' cc rc oof oof' zc zc' : gstyle_wrel k st st' -> pre_rel k P P' -> Forall2 (oof_rel k) oof oof' ->
+    sized_rel k (fst zc) (fst zc') -> snd zc' = snd zc -> AR (grid_final st P cc rc oof zc) (grid_final st' P' cc rc oof' zc').
+  Proof.
+    intros Ws HP Hoof Hz Ec. destruct zc as [z c], zc' as [z' c']. cbn [fst snd] in Hz, Ec. subst c'.
+    destruct Hz as ((Hcols & Hrows & _ & _ & Hitems) & Hbb & [Hcw Hch]). gw_open Ws. unfold grid_final.
+    destruct (negb c); [apply AR_ret; apply rel_g_from_outer_size; exact Hbb|]. cbv zeta.
+    assert (Ecas : to_ae_ib st' = to_ae_ib st) by (unfold to_ae_ib; rewrite Wai, Wji; reflexivity). rewrite Ecas, Wjc, Walc.
+    pose proof HP as ((Pl & _ & Pt & _) & (Bl & _ & Bt & _) & _).
+    pose proof (align_tracks_homog k Hk _ _ _ _ _ _ _ _ (opt_unwrap_or (gs_justify_content st) AStretch) Hcw Pl Bl Hcols) as Hc2.
+    pose proof (align_tracks_homog k Hk _ _ _ _ _ _ _ _ (opt_unwrap_or (gs_align_content st) AStretch) Hch Pt Bt Hrows) as Hr2.
+    assert (Hit : Forall2 (gitem_rel k) (sort_by (fun a b : @GItem XQ => Nat.ltb (g_node a) (g_node b)) (ss_items (z_state z)))
+                                        (sort_by (fun a b : @GItem XQ => Nat.ltb (g_node a) (g_node b)) (ss_items (z_state z')))).
+    { apply (rel_sort_by (gitem_rel k)); [|exact Hitems]. intros a a' b b' (Ea & _) (Eb & _). rewrite Ea, Eb. reflexivity. }
+    rewrite (rel_length (gitem_rel k) _ _ Hit).
+    apply rel_inflow_pass; try assumption; [apply rel_size_ZERO'|constructor|]. intros ct ct' pl pl' Hct Hpl.
+    apply rel_out_of_flow_pass; try assumption. intros c2 c2' Hc2'.
+    pose proof (rel_container_baseline _ _ Hpl) as Hb.
+    destruct (container_baseline pl), (container_baseline pl'); cbn [op_rel] in Hb; try contradiction.
+    - apply AR_ret. unfold output_rel. cbn [out_size out_content_size first_baselines top_margin bottom_margin margins_can_collapse_through].
+      split; [exact Hbb|]. split; [exact Hc2'|]. split; [split; [exact I|exact Hb]|]. split; [apply rel_mset_ZERO'|]. split; [apply rel_mset_ZERO'|reflexivity].
+    - apply AR_ret. apply rel_g_from_outer_size. exact Hbb.
+  Qed.
 End Final.
